@@ -456,6 +456,23 @@ def allowed (c : Contract) (e : String) (r : Role) (s : CState) : Bool :=
   | none => false
   | some ent => guardOk c ent.guard r && stateOk ent.st s
 
+/-- Classification of an endpoint the hand-written table does not list, from the flags of the compiled contract's
+    ABI alone (so that a harmless new getter or a new `#[only_owner]` setter is not an alarm): a read-only endpoint is
+    a view, an `#[only_owner]` endpoint is configuration guarded by the contract owner; any other unknown endpoint —
+    mutable and callable by anybody — stays unclassified, which breaks `inventory_classified`. -/
+def abiDefault (e : String) (onlyOwner readonly : Bool) : Option Entry :=
+  if readonly then some (vw e) else if onlyOwner then some (cfg e .scOwner) else none
+
+/-- table entry if there is one, else the ABI default -/
+def classify (c : Contract) (e : String) (onlyOwner readonly : Bool) : Option Entry :=
+  match lookup c e with
+  | some ent => some ent
+  | none => abiDefault e onlyOwner readonly
+
+/-- the access decision for an explicit entry (table row or ABI default) -/
+def allowedBy (c : Contract) (ent : Entry) (r : Role) (s : CState) : Bool :=
+  guardOk c ent.guard r && stateOk ent.st s
+
 /-- `name@variant` ↦ `name` -/
 def baseName (e : String) : String := (e.splitOn "@").headD e
 
